@@ -14,7 +14,11 @@ class InitFailure(Exception):
 
 
 def gen_scenarios(rnd: random.Random, count):
-    out = []
+    # corners: one worker per stage, nothing fails at start, work still pending in every stage at exit: the ledger must be
+    # empty after exit (Exited.single => backlog = 0)
+    out = [{'topo': t, 'n1': 1, 'n2': 1, 'total': 1 if t == 'single' else 2, 'fail_at': 0, 'ab': ab, 'failfast': ff}
+           for t, ab, ff in (('seq', 5, False), ('seq', 2, True), ('ens', 5, False), ('ens', 5, True), ('switch', 5, False),
+                             ('single', 5, False))]
     for _ in range(count):
         topo = rnd.choice(['single', 'seq', 'ens', 'switch'])
         n1, n2 = rnd.choice([1, 2, 3]), rnd.choice([1, 2])
@@ -104,7 +108,8 @@ def _make_scenario(sc):
                 it.close()
             server.__exit__(None, None, None)
             names = leftover()
-            detsched.emit('Exited', procs=len(names), threads=0, names=names)
+            detsched.emit('Exited', procs=len(names), threads=0, names=names, backlog=server.backlog,
+                          single=(sc['n1'] == 1 and (sc['topo'] == 'single' or sc['n2'] == 1)))
             if cycle == 1:
                 detsched.emit('Reenter')
 
@@ -122,7 +127,8 @@ def run_job(job):
             st = detsched.RandomStrategy(seed, stay=0.4 + 0.5 * ((seed * 7919) % 10) / 10.0, fire=0.25)
         res = detsched.run(_make_scenario(sc), st, max_steps=600000, stall_timeout=120, lag=0.02, max_idle_vtime=3000.0)
         n_exec += 1
-        evs = [e for e in strip(res.trace) if e['ev'] in ('Entered', 'EnterFailed', 'Exited', 'Reenter')]
+        evs = [{k: v for k, v in e.items() if k not in ('seq', 'th')} for e in res.trace
+               if e['ev'] in ('Entered', 'EnterFailed', 'Exited', 'Reenter')]
         for e in evs:
             e.pop('names', None)
         rec = {'id': item['id'], 'p': header(sc), 'ev': evs, 'sc': sc, 'seed': seed, 'strategy': strat,
